@@ -744,4 +744,143 @@ def invalidate_last(repo: Repo) -> RuleRun:
 
 invalidate_last.rule_id = "C09.INVALIDATE-LAST"
 
-RULES = [purity, no_alias_store, affine_balance, unit_normal, direction_parts, transform_equals_methods, transform_routing, linear_parts, deep_copy, mirror_matrix, no_shared_parts, arguments_untouched, super_forwarding, inplace_then_read, invalidate_last]
+def arc_sense(repo: Repo) -> RuleRun:
+    """An angle-and-axis arc runs from its first to its second end point, turning by `angle` about `axis` (right-hand rule). Its
+    image under an orthogonal map Q is the arc from Q(v1) to Q(v2) about det(Q)*Q(axis): a reflection reverses the sense of rotation.
+    Three things can carry the reversal - the axis sign, the sign of the angle and the direction the edge is traversed in (its end
+    points swapped, as Operation.mirror does for side edges by inverting the operation) - and their product must be det(Q) in every
+    carrier of edge data. The rule evaluates the carrier's transformation on a model whose points and axis record what is applied
+    to them, then multiplies the three signs."""
+    r = RuleRun(PROP, "C09.ARC-SENSE", floor=6, what="sense of rotation of angle-and-axis edges: (axis sign) x (angle sign) x (traversal direction) equals the determinant of the transformation, for edges of a face, of an operation's faces and of its sides")
+    r.exhaustive = True
+    point_cls = repo.cls("construct.point.Point")
+    angle_cls = repo.cls("construct.edges.Angle")
+    line_cls = repo.cls("construct.edges.Line")
+    face_cls = repo.cls("construct.flat.face.Face")
+    op_cls = repo.cls("construct.operations.operation.Operation")
+
+    def tracked(name, cls=point_cls):
+        o = Obj(name, cls=cls)
+        o.set("log", [])
+        return o
+
+    def mk_angle(name):
+        e = Obj(name, cls=angle_cls)
+        e.set("angle", 1)
+        e.set("axis", tracked(f"{name}.axis", repo.cls("construct.point.Vector")))
+        return e
+
+    def mk_face(name):
+        face = Obj(name, cls=face_cls)
+        face.set("points", [tracked(f"{name}.p{i}") for i in range(4)])
+        face.set("edges", [mk_angle(f"{name}.e0")] + [Obj(f"{name}.e{i}", cls=line_cls) for i in range(1, 4)])
+        face.set("projected_to", None)
+        face.set("patch_name", None)
+        return face
+
+    def hook(ev, call, name):
+        if isinstance(call.func, ast.Attribute) and call.func.attr in ("rotate", "mirror", "scale", "translate"):
+            recv = ev.eval(call.func.value)
+            if isinstance(recv, Obj) and recv._cls is not None and point_cls in repo.mro(recv._cls) and recv.has("log"):
+                args = [ev.eval(a) for a in call.args] + [ev.eval(k.value) for k in call.keywords]
+                recv.get("log").append((call.func.attr, args))
+                return recv
+        return NO_MATCH
+
+    def axis_sign(edge, kind):
+        """+1 / -1: the axis is Q(axis) / -Q(axis) afterwards; None with a reason otherwise"""
+        sign, applied = 1, 0
+        for what, args in edge.get("axis").get("log"):
+            if what == kind:
+                applied += 1
+            elif what == "scale" and args and isinstance(args[0], (int, float)) and not isinstance(args[0], bool) and abs(args[0]) == 1:
+                sign *= int(args[0])
+            else:
+                return None, f"the axis is additionally subjected to {what}({', '.join(map(repr, args))[:60]})"
+        if applied != 1:
+            return None, f"the axis is {kind}d {applied} times"
+        ang = edge.get("angle")
+        if ang not in (1, -1):
+            return None, f"the angle becomes {ang!r}"
+        return sign * ang, ""
+
+    for kind, det, targs in (("mirror", -1, [Sym("normal"), Sym("origin")]), ("rotate", 1, [Sym("angle"), Sym("axis"), Sym("origin")])):
+        # (1) a face on its own
+        face = mk_face("face")
+        p0, p1, edge = face.get("points")[0], face.get("points")[1], face.get("edges")[0]
+        m = repo.find_method(face_cls, kind)
+        _run_sense(Evaluator(repo=repo, module=m.module, call_hook=hook), m, [face, *targs])
+        where = [(j, e) for j, e in enumerate(face.get("edges")) if e is edge]
+        r.require(len(where) == 1, f"Face.{kind}: the angle edge is in {len(where)} slots afterwards")
+        j = where[0][0]
+        ends = (face.get("points")[j], face.get("points")[(j + 1) % 4])
+        direction = 1 if ends == (p0, p1) else -1 if ends == (p1, p0) else 0
+        _judge_sense(r, m, f"Face.{kind}: edge of the face", kind, det, direction, *axis_sign(edge, kind))
+        # (2) an operation: edges of its faces and of its sides
+        op = Obj("op", cls=op_cls)
+        bottom, top = mk_face("bottom"), mk_face("top")
+        op.set("bottom_face", bottom)
+        op.set("top_face", top)
+        side = mk_angle("side.e0")
+        op.set("side_edges", [side] + [Obj(f"side.e{i}", cls=line_cls) for i in range(1, 4)])
+        op.set("side_projects", [None] * 4)
+        op.set("side_patches", [None] * 4)
+        b0, t0 = bottom.get("points")[0], top.get("points")[0]
+        fedge, f0, f1 = bottom.get("edges")[0], bottom.get("points")[0], bottom.get("points")[1]
+        m = repo.find_method(op_cls, kind)
+        _run_sense(Evaluator(repo=repo, module=m.module, call_hook=hook), m, [op, *targs])
+        where = [j for j, e in enumerate(op.get("side_edges")) if e is side]
+        r.require(len(where) == 1, f"Operation.{kind}: the side edge is in {len(where)} slots afterwards")
+        j = where[0]
+        ends = (op.get("bottom_face").get("points")[j], op.get("top_face").get("points")[j])
+        direction = 1 if ends == (b0, t0) else -1 if ends == (t0, b0) else 0
+        _judge_sense(r, m, f"Operation.{kind}: side edge", kind, det, direction, *axis_sign(side, kind))
+        direction = 0
+        for fc in (op.get("bottom_face"), op.get("top_face")):
+            for j, e in enumerate(fc.get("edges")):
+                if e is fedge:
+                    ends = (fc.get("points")[j], fc.get("points")[(j + 1) % 4])
+                    direction = 1 if ends == (f0, f1) else -1 if ends == (f1, f0) else 0
+        _judge_sense(r, m, f"Operation.{kind}: edge of a face of the operation", kind, det, direction, *axis_sign(fedge, kind))
+    return r
+
+
+def _run_sense(ev, m, args):
+    try:
+        ev.call_funcinfo(m, args)
+    except Raised as err:
+        raise AnalysisError(f"{m.qualname}: raised {err.exc_name} on the arc-sense model") from err
+    except NotEvaluable as err:
+        raise AnalysisError(f"{m.qualname} not evaluable on the arc-sense model: {err}") from err
+
+
+def _judge_sense(r, m, label, kind, det, direction, sign, why):
+    key = label.split(":")[0].strip() + ":" + label.split(":")[1].strip().replace(" ", "-")
+    if sign is None:
+        raise AnalysisError(f"{label}: {why}")
+    r.require(direction != 0, f"{label}: the edge does not connect its two original end points afterwards")
+    got = sign * direction
+    r.check(
+        got == det,
+        m,
+        f"{label}: axis/angle sign {sign:+d} x traversal {direction:+d} = {got:+d} = det",
+        f"{label}: after {kind}() the axis is {'+' if sign > 0 else '-'}Q(axis) (angle sign included) and the edge is traversed in the {'same' if direction > 0 else 'opposite'} direction, so the sense of rotation "
+        f"is {got:+d} times the original one, but the image of an arc under a map of determinant {det:+d} turns {det:+d} times it: the arc of the transformed entity bulges to the other side of its chord than the "
+        "transformed arc of the original entity",
+        m.node,
+        key=key,
+    )
+
+
+arc_sense.rule_id = "C09.ARC-SENSE"
+
+def live_lengths(repo: Repo) -> RuleRun:
+    """'edge lengths (scaled by the ratio)': lengths follow the points through scale(); none is remembered from construction."""
+    from ..transforms import length_snapshot_rule
+
+    return length_snapshot_rule(repo, PROP, "C09.LIVE-LENGTHS")
+
+
+live_lengths.rule_id = "C09.LIVE-LENGTHS"
+
+RULES = [arc_sense, purity, no_alias_store, affine_balance, unit_normal, direction_parts, transform_equals_methods, transform_routing, linear_parts, deep_copy, mirror_matrix, no_shared_parts, arguments_untouched, super_forwarding, inplace_then_read, invalidate_last, live_lengths]
